@@ -213,6 +213,16 @@ def p_range(I, n, pos, kw):
     return ObjV(None, dict(lo=lo, hi=hi), tag="range")
 
 
+@prim("builtins.super")
+def p_super(I, n, pos, kw):
+    fr = I.frames[-1]
+    cls = fr.fi.cls
+    params = fr.fi.params
+    if cls is None or not params or params[0] not in fr.env:
+        return I.unknown("super-outside-method", n)
+    return ObjV(None, dict(cls=cls, self=fr.env[params[0]]), tag="super")
+
+
 @prim("builtins.enumerate")
 def p_enumerate(I, n, pos, kw):
     return ObjV(None, dict(inner=pos[0]), tag="enumerate")
